@@ -971,4 +971,41 @@ theorem roundtrip_twice (k : Kymo) (hpx : k.px ≠ 0) (sample : Option (Int → 
       refine ⟨fmt6e d, by simp [reimported, mdOf, hd], ?_⟩
       exact fmt6e_idempotent d (hr tr htr d hd)
 
+/-! ## sampled photon counts (`_sum_track_signal`) -/
+
+/-- **The sampled count is the sum over the pixels of the scan line within `w` of the centre pixel**
+    (`int(c + offset)`), clipped to the image: the Python slice `max(centre − w, 0) : centre + w + 1`
+    selects exactly the positions `p` with `centre − w ≤ p ≤ centre + w` that exist — provided the
+    stop of the slice is not negative (centre pixel at most `w + 1` left of the image). -/
+theorem sumSignal_spec (img : List (List Int)) (w : Nat) (off : Rat) (t : Int) (c : Rat)
+    (h : 0 ≤ trunc (c + off) + w + 1) :
+    sumSignal img w off t c
+      = (((List.range ((pyIndex img t).getD []).length).filter fun (p : Nat) =>
+            decide (trunc (c + off) - w ≤ (p : Int) ∧ (p : Int) ≤ trunc (c + off) + w)).map
+          fun (p : Nat) => (((pyIndex img t).getD [])[p]?).getD 0).sum := by
+  unfold sumSignal
+  simp only
+  generalize (pyIndex img t).getD [] = line
+  generalize trunc (c + off) = centre at *
+  unfold pySlice
+  obtain ⟨i, hi⟩ : ∃ i : Nat, max (centre - (w : Int)) 0 = i := ⟨(max (centre - (w : Int)) 0).toNat, by omega⟩
+  obtain ⟨j, hj⟩ : ∃ j : Nat, centre + (w : Int) + 1 = j := ⟨(centre + (w : Int) + 1).toNat, by omega⟩
+  rw [hi, hj, pyNorm_nat, pyNorm_nat, sum_take_drop]
+  unfold windowSum
+  congr 2
+  apply List.filter_congr
+  intro p hp
+  have hp' : p < line.length := List.mem_range.1 hp
+  simp only [decide_eq_decide]
+  omega
+
+example : sumSignal [[1, 2, 3, 4, 5]] 1 (1 / 2) 0 (1 / 4) = 3 ∧ sumSignal [[1, 2, 3, 4, 5]] 1 (1 / 2) 0 (15 / 4) = 9 := by
+  decide +kernel
+
+/-- the hypothesis is necessary (kernel-checked witness): a centre pixel more than `w + 1` left of the
+    image makes the stop of the slice negative, Python counts it from the END of the line, and the
+    "window" is almost the whole scan line (10 instead of 0).  Coordinates of tracks lie inside the
+    image, so the property never meets this case. -/
+theorem sumSignal_negative_stop_wraps : sumSignal [[1, 2, 3, 4, 5]] 1 0 0 (-3) = 10 := by decide +kernel
+
 end Verif.C17
